@@ -224,6 +224,9 @@ def r16_2(ctx, pf, loop):
     if getattr(pf, "optional_arg", None) is not None and isinstance(it, ast.Name):
         it = pf.optional_arg  # the loop is in a helper: what the parser hands it
     ok = isinstance(it, ast.Subscript) and isinstance(it.slice, ast.Slice) and const_value(it.slice.lower) == 12 and it.slice.upper is None and it.slice.step is None
+    if isinstance(it, ast.Call) and norm(it.func) in ("islice", "itertools.islice") and len(it.args) in (2, 3):
+        # islice(cols, 12, None): the same window, lazily
+        ok = const_value(it.args[1]) == 12 and (len(it.args) == 2 and False or len(it.args) == 3 and const_value(it.args[2], "?") is None)
     ctx.check(ok, "R16.2", pf.where(loop), "the tag loop scans the optional columns only (fields[12:]), so a read name or path shaped like a tag is never re-emitted as a field", key_of(pf, f"tag-loop-iter:{norm(it)}"), iter=norm(it))
 
 
@@ -243,49 +246,91 @@ def r16_3_6(ctx, pf, loop, info):
     # stored value must be the captured value itself
     for st in stores:
         ctx.check(norm(st.value) == vv, "R16.4", pf.where(st), "the value stored for a tag is the captured value, unmodified", key_of(pf, f"store-value:{norm(st.value)}"), stored=norm(st.value))
-    from .c19 import _is_regex_call
+    from .c19 import _is_regex_call, gate_value
+    from ..core import local_defs
 
     match_vars = {norm(st.targets[0]) for st in walk_stmts(loop.body) if isinstance(st, ast.Assign) and _is_regex_call(st.value, pf.module)}
-    drops = {}
-    for p in paths:
-        matched = True
-        for t, pol in p.tests():
-            if (names_in(t) & match_vars) or any(isinstance(c, ast.Call) and norm(c.func).startswith("re.") for c in ast.walk(t)):
-                # the gate (possibly combined with a grammar validation decided by R16.1): False = not a well-formed field
-                if not pol:
-                    matched = False
-        if not matched:
-            continue
-        stored = any(e.kind == "stmt" and e.node in stores for e in p.events)
-        if stored:
-            continue
-        # why was a well-formed field not stored on this path?
-        reasons = []
-        for t, pol in p.tests():
-            s, sp = canon_test(t, pol)
-            if names_in(t) & match_vars:
-                continue
-            reasons.append((s, sp))
-        drops[tuple(reasons)] = p
-    ds_seen = False
+    defs = local_defs(pf.node)
+    # key classes: every string constant the key is compared with, plus one fresh well-formed key
+    consts = []
+    for n in ast.walk(loop):
+        if isinstance(n, ast.Compare) and norm(n.left) == kv:
+            for c in n.comparators:
+                for k in [c] if isinstance(c, ast.Constant) else (list(c.elts) if isinstance(c, (ast.Tuple, ast.List, ast.Set)) else []):
+                    if isinstance(k, ast.Constant) and isinstance(k.value, str) and k.value not in consts:
+                        consts.append(k.value)
+    fresh = next(k for k in ("NM:i:", "dv:f:", "zz:Z:") if k not in consts)
+    for k in ("ds:Z:", "cg:Z:"):
+        if k not in consts:
+            consts.append(k)
+    classes = consts + [fresh]
+    tag_in = {f"{kv} in {tags_var}", f"{kv} in {tags_var}.keys()", f"{kv} in list({tags_var})", f"{kv} in list({tags_var}.keys())"}
+
+    def ev(e, world, depth=0):
+        """3-valued truth of a test in a world (key constant, already-present flag); None = not determined."""
+        key, present = world
+        g = gate_value(e, True, match_vars, pf.module)
+        if g is not None and not isinstance(e, ast.BoolOp):
+            return g  # well-formed field: the gate holds
+        if isinstance(e, ast.UnaryOp) and isinstance(e.op, ast.Not):
+            v = ev(e.operand, world, depth)
+            return None if v is None else (not v)
+        if isinstance(e, ast.BoolOp):
+            vals = [ev(v, world, depth) for v in e.values]
+            if isinstance(e.op, ast.And):
+                return False if any(v is False for v in vals) else (True if all(v is True for v in vals) else None)
+            return True if any(v is True for v in vals) else (False if all(v is False for v in vals) else None)
+        if isinstance(e, ast.Name) and depth < 4 and e.id in defs and len(defs[e.id]) == 1 and defs[e.id][0] is not None:
+            return ev(defs[e.id][0], world, depth + 1)
+        if isinstance(e, ast.Compare) and len(e.ops) == 1:
+            t, pol = canon_test(e, True)
+            if t in tag_in:
+                return present == pol
+            c = e.comparators[0]
+            if norm(e.left) == kv:
+                if isinstance(c, ast.Constant) and isinstance(c.value, str) and isinstance(e.ops[0], (ast.Eq, ast.NotEq)):
+                    return (key == c.value) == isinstance(e.ops[0], ast.Eq)
+                if isinstance(c, (ast.Tuple, ast.List, ast.Set)) and all(isinstance(k, ast.Constant) for k in c.elts) and isinstance(e.ops[0], (ast.In, ast.NotIn)):
+                    return (key in [k.value for k in c.elts]) == isinstance(e.ops[0], ast.In)
+        return None
+
+    def outcomes(world):
+        out = {}
+        for p in paths:
+            ok = True
+            for t, pol in p.tests():
+                v = ev(t, world)
+                if v is not None and v != pol:
+                    ok = False
+                    break
+            if ok:
+                out.setdefault(any(e.kind == "stmt" and e.node in stores for e in p.events), p)
+        return out
+
     rep_reported = False
-    for reasons, p in drops.items():
-        rs = [r for r in reasons]
-        # the documented drop: key == 'ds:Z:'
-        if any(s == f"{kv} == 'ds:Z:'" and sp for s, sp in rs):
-            ds_seen = True
-            ctx.holds("R16.6", pf.where(loop), "ds:Z: is dropped explicitly (documented exception)")
-            continue
-        # the first-wins handling of a repeated tag
-        rep = [(s, sp) for s, sp in rs if s == f"{kv} in {tags_var}" and sp]
-        if rep:
-            if rep_reported:
+    n_worlds = 0
+    for key in classes:
+        for present in (False, True):
+            n_worlds += 1
+            out = outcomes((key, present))
+            if not out:
+                raise AnalysisError("R16.6", pf.where(loop), f"no path of the tag loop is consistent with a well-formed field {key}")
+            if key == "ds:Z:":
+                ctx.check(set(out) == {False}, "R16.6", pf.where(loop), "the documented ds:Z: exception is an explicit filter on the literal key (not an accident of the value pattern)", key_of(pf, "ds-explicit"))
                 continue
-            rep_reported = True
-            ctx.violated("R16.3", pf.where(loop), "a repeated tag is dropped: the mapping is keyed by TAG:TYPE: and only the first occurrence is kept", "gaftools.gaf::optional-field-parser::repeated-tag-first-wins", path=p.show())
-            continue
-        ctx.violated("R16.6", pf.where(loop), f"a well-formed optional field is silently dropped under {[(s, sp) for s, sp in rs]}", key_of(pf, f"drop:{rs}"), path=p.show())
-    ctx.check(ds_seen, "R16.6", pf.where(loop), "the documented ds:Z: exception is an explicit filter on the literal key (not an accident of the value pattern)", key_of(pf, "ds-explicit"))
+            if False not in out:
+                continue
+            p = out[False]
+            if present and key != "cg:Z:":
+                if not rep_reported:
+                    rep_reported = True
+                    ctx.violated("R16.3", pf.where(loop), "a repeated tag is dropped: the mapping is keyed by TAG:TYPE: and only the first occurrence is kept", "gaftools.gaf::optional-field-parser::repeated-tag-first-wins", path=p.show())
+                continue
+            if present:
+                continue  # a repeated cg:Z: — covered by the repeated-tag finding's family; the CIGAR rules are C12/C19's
+            why = [canon_test(t, pol) for t, pol in p.tests() if gate_value(t, pol, match_vars, pf.module) is None]
+            ctx.violated("R16.6", pf.where(loop), f"a well-formed optional field ({key}...) is silently dropped under {why}", key_of(pf, f"drop:{key}:{why}"), path=p.show())
+    ctx.holds("R16.6", pf.where(loop), f"every well-formed field other than ds:Z: that is not yet present is stored on every path ({n_worlds} key/presence worlds x {len(paths)} paths)")
 
 
 def r16_4(ctx, f, rec, n, extras, schema, key_colon):
